@@ -117,6 +117,7 @@ def check(run, replay):
     finally:
         shutil.rmtree(wd, ignore_errors=True)
         run.extra["model_vs_dump_disagreements"] = run.extra.pop("_model_diffs", 0)
+        run.extra["literal_model_vs_dump_disagreements"] = run.extra.pop("_lit_diffs", 0)
 
 
 def typed_expressions(run, model, wd, pname, cpp, ops):
@@ -279,8 +280,20 @@ def literals(run, model, wd, p, rng, quick):
                  "how": "echo 'void f(void) { long long v = %s ; }' > t.c && %s --dump -q --platform=%s t.c  # valueType of the literal token" % (text, vlib.CPPCHECK, pname)}
         run.count("literal-type", None, nontrivial=(pname, text), bucket="%s,%s" % (pname, "ok" if mod == impl else "diff"))
         if mod != impl:
-            run.violation("model:lit:%s:%s" % (pname, text), "literal %s on %s: cppcheck types it %s %s, the model says %s %s" % (text, pname, impl[1], impl[0], mod[1], mod[0]),
-                          dict(where, broken="correspondence literal type", impl=impl, model=mod), found_input=False)
+            nrep = run.extra.setdefault("_lit_diffs", 0)
+            run.extra["_lit_diffs"] = nrep + 1
+            if nrep >= 6:
+                continue
+            s = vlib.dec_line(so[i])          # search: ISO C 6.4.4.1 itself on this literal
+            want = int(s[0]) if s and s[0].isdigit() else None
+            have = ctype_of_dump(impl[0], impl[1] or None)
+            if want is not None and want != have:
+                run.violation("spec:lit:%s:%s" % (pname, text), "literal %s on %s: cppcheck types it %s %s, ISO C 6.4.4.1 says %s (the model says %s %s)"
+                              % (text, pname, impl[1], impl[0], CT[want], mod[1], mod[0]),
+                              dict(where, cppcheck_type="%s %s" % (impl[1], impl[0]), language_type=CT[want], model=mod))
+            else:
+                run.violation("model:lit:%s:%s" % (pname, text), "literal %s on %s: cppcheck types it %s %s, the model says %s %s" % (text, pname, impl[1], impl[0], mod[1], mod[0]),
+                              dict(where, broken="correspondence literal type", impl=impl, model=mod), found_input=False)
             continue
         s = vlib.dec_line(so[i])
         want = int(s[0]) if s and s[0].isdigit() else None
